@@ -81,7 +81,6 @@ package codegen
 //@   modifies* nothing
 //@   frameprop C01
 
-
 // Goify hands every non-empty identifier it produces through the escape above (or returns one of the two
 // fixed defaults): whatever CamelCase does, the result is never reserved.
 //@ func Goify
